@@ -537,6 +537,45 @@ def candidates_all_matched(run, R="TAB-idx"):
                   "%s: %s: a candidate rule could be skipped on one of the two matcher paths only, so --debug-no-optimize-matcher would change the result" % (name, why))
 
 
+def lookahead_both(run, R="MATCH"):
+    """an expression argument followed by a literal character is parsed both ways: up to the end, and up to the next
+    occurrence of that character; dropping either attempt loses valid matches (`ld "a,", 4`; `{x} if {y}`)"""
+    from mir import natural_loop
+    f = run.anchor(R, "matcher::match_with_rule")
+    if f is None:
+        return
+    me = [(bi, t) for bi, t in f.calls() if (t.get("resolved") or "").endswith("matcher::match_with_expr")] + \
+         [(bi, t) for bi, t in f.calls() if (t.get("resolved") or "").endswith("matcher::match_with_nested_ruledef")]
+    n = 0
+    ok = bool(me)
+    why = "no expression / nested-rule attempts found"
+    for bi, t in me:
+        # the innermost loop around the attempt iterates over an array constant holding both false and true
+        best = None
+        for h in sorted(f.reachable()):
+            l_ = natural_loop(f, h)
+            if bi in l_ and (best is None or len(l_) < len(best)):
+                best = l_
+        arrs = []
+        if best:
+            for b2, t2 in f.calls():
+                if (t2.get("callee") or "").endswith("IntoIterator::into_iter") and (t2.get("arg_tys") or [""])[0] == "[bool; 2]":
+                    if any(f.dominates(b2, x) for x in best):
+                        o = f.origin_op(t2["args"][0])
+                        while o and o[0] in ("ref", "cast"):
+                            o = o[1]
+                        vals = None
+                        if o and o[0] == "agg" and o[1].get("agg") == "array":
+                            vals = [const_int(x) for x in o[1]["ops"]]
+                        arrs.append(vals)
+        n += 1
+        if not any(v is not None and sorted(v) == [0, 1] for v in arrs):
+            ok = False
+            why = "the attempt at line %s is not made for both `lookahead off` and `lookahead on`" % t["span"]["line"]
+    run.check(ok, R, R + "|lookahead-both", f.loc(), "every expression / nested-rule argument is attempted both without and with the lookahead limit (%d attempts)" % n,
+              "match_with_rule: %s" % why)
+
+
 def match_identity(run, R="MATCH"):
     """two matches are `the same` only when they come from the same rule block, the same rule and the same arguments: the
     fields compared by InstructionMatch::is_same"""
